@@ -159,6 +159,8 @@ def check_one(job):
         cp.check_program(p)
     except cp.Unsupported as e:
         return [f"[{idx}] {fam}: generator produced a program outside the subset: {e}\n{cp.render_program(p)}"], 0, 0
+    except BaseException as e:          # noqa
+        return [f"[{idx}] {fam}: check_program raised {e!r}"], 0, 0
     pts = points(p, rnd, npts)
     src = driver(p, pts)
     base = os.path.join(tmp, f"p{idx}")
